@@ -10,8 +10,9 @@
 (*               of an open projection), parentheses, pipes, || && !,       *)
 (*               comparators, multi-selects, function calls (the tree as    *)
 (*               argument or as expression-type), and placement as the      *)
-(*               right-hand side / condition of a projection.  WrapSet      *)
-(*               (core < mid < full) selects how many siblings per kind.    *)
+(*               right-hand side / condition of a projection.  W1..W3       *)
+(*               (core < mid < full, per layer) selects how many siblings   *)
+(*               per kind.                                                  *)
 (*  Mode "fn"    every built-in (and an unknown name) applied to every      *)
 (*               argument tuple over a typed argument alphabet: 0..2        *)
 (*               arguments (3 for a smaller alphabet) - well-typed,         *)
@@ -25,11 +26,9 @@
 (* The same runs check the specification's algebraic identities as          *)
 (* invariants (Identities).                                                 *)
 EXTENDS Jmespath, Json
-CONSTANTS Mode, MaxDepth, WrapSet, SlRange, EmitAst,
-          ExcludeFilterOnNonArray,   \* TRUE: do not compare cases that hit suspected defect 1 (notes/C13.md)
-          ExcludeMergeNoOverride,    \* TRUE: do not compare cases that hit suspected defect 2 (notes/C13.md)
-          ExcludeNotBeforePipe,      \* TRUE: do not generate expressions that hit suspected defect 3
-          ExcludePipeIntoLiteral     \* TRUE: do not generate expressions that hit suspected defect 4
+CONSTANTS Mode, MaxDepth, W1, W2, W3, SlRange, EmitAst,
+          KnownDeviations    \* names of suspected defects of the implementation (notes/C13.md) whose cases are
+                             \* excluded from comparison / generation; {} = the specification, strictly
 VARIABLES e, depth
 
 A == <<97>>  B == <<98>>
@@ -110,7 +109,9 @@ Post(x, k, p) ==
   ELSE IF x[1] = "fil" THEN <<"fil", x[2], x[3], PostRhs(x[4], k, p)>>
   ELSE Node(k, p, x)
 
-Lv == CASE WrapSet = "core" -> 1 [] WrapSet = "mid" -> 2 [] WrapSet = "full" -> 3
+\* W1, W2, W3 name the sibling alphabet (core < mid < full) of the first, second, third layer of wrapping
+LayerSet == IF depth <= 1 THEN W1 ELSE IF depth = 2 THEN W2 ELSE W3
+Lv == CASE LayerSet = "core" -> 1 [] LayerSet = "mid" -> 2 [] LayerSet = "full" -> 3
 Pick(c, m, f) == IF Lv = 1 THEN c ELSE IF Lv = 2 THEN c \cup m ELSE c \cup m \cup f
 
 Sl(a, b, c) == <<a, b, c>>
@@ -157,7 +158,7 @@ RhsL == Pick({Fa}, {Cur}, {})
 RhsWraps(x) == UNION { { <<"prj", l, x>>, <<"flt", l, x>>, <<"vpr", l, x>>, <<"fil", l, Fa, x>>, <<"fil", l, x, Cur>>,
                          <<"slc", l, Sl(N(1), Ab, Ab), x>> } : l \in RhsL }
 \* an expression is generated when its string reading is unambiguous and it does not hit an excluded known deviation
-Gen(y) == Renderable(y) /\ (ExcludeNotBeforePipe => ~HasNotBeforePipe(y)) /\ (ExcludePipeIntoLiteral => ~HasPipeIntoLiteral(y))
+Gen(y) == Renderable(y) /\ ~ShapeDeviation(y, KnownDeviations)
 Wraps(x) == { y \in PostWraps(x) \cup BinWraps(x) \cup SelWraps(x) \cup FnWraps(x) \cup RhsWraps(x) : Gen(y) }
 
 Bases == Pick({Cur, Fa, Fb}, {}, {I(1), Raw(A), L(Ar(<<JInt(1), Ar(<<JInt(2)>>), JNull>>))})
@@ -219,7 +220,7 @@ Next == \/ /\ depth = 0 /\ depth' = 1 /\ e' \in { x \in First : Gen(x) }
 View == e
 
 Enc(r) == IF r[1] = "err" THEN <<"e", r[2]>> ELSE IF r[1] = "dc" THEN <<"dc", r[2]>> ELSE <<"v", Wire(r)>>
-XF == (IF ExcludeFilterOnNonArray THEN {"filter-on-non-array"} ELSE {}) \cup (IF ExcludeMergeNoOverride THEN {"merge-no-override"} ELSE {})
+XF == KnownDeviations
 Res(x, d, uo) == LET ra == Ev(x, d, Env("asc", XF)) IN
                  IF uo THEN (LET rd == Ev(x, d, Env("desc", XF)) IN IF ra = rd THEN Enc(ra) ELSE <<"od", Enc(ra), Enc(rd)>>) ELSE Enc(ra)
 CaseRec == LET uo == UsesOrder(e)
